@@ -7,6 +7,7 @@ generator draws them from `range(rows*cols)`; a negative index would be wrapped 
 import JumanjiModel.Env.Minesweeper.Lemmas
 import JumanjiModel.Env.Minesweeper.BoundsLemmas
 import JumanjiModel.Env.Minesweeper.Episode
+import JumanjiModel.Env.Minesweeper.SpecLemmas
 open Jm Jx Minesweeper
 
 namespace Props.C04
@@ -23,6 +24,20 @@ theorem minesweeper_step_agrees (s : State) (nr nc : Nat) (hs : Grid.shaped s.bo
   Minesweeper.isValid_iff_legal s nr nc hs r c hr hc
 
 example : legal ⟨[[-1, 2], [0, -1]], 2, [1, 2]⟩ 0 0 ∧ ¬ legal ⟨[[-1, 2], [0, -1]], 2, [1, 2]⟩ 0 1 := by decide
+
+/-- (wave 3; the statement above is about the test `is_valid_action`, not about what `step` does) the reaction of `step`
+ITSELF: from every consistent state (every non-terminal state of every episode from a generated instance:
+`minesweeper_consistent_along`) and for every square of the board, the rules allow exploring it IFF `step` revealed exactly
+one more square; and `step` treated the action as invalid — LAST with nothing new revealed, which is how the harness reads
+the reaction off a transition — IFF the rules forbid it -/
+theorem minesweeper_step_reaction (cfg : Cfg) (s : State) (hcs : Consistent cfg s) (r c : Nat)
+    (hr : r < cfg.numRows) (hc : c < cfg.numCols) :
+    (legal s r c ↔ explored (step cfg s r c).1.board = explored s.board + 1) ∧
+    (¬ legal s r c ↔ ((step cfg s r c).2.stepType = .last ∧ explored (step cfg s r c).1.board = explored s.board)) :=
+  Minesweeper.step_reaction cfg s hcs r c hr hc
+
+example : Consistent ⟨2, 2, 2, 1, 0, 0⟩ ⟨[[-1, 2], [-1, -1]], 1, [0, 3]⟩ ∧
+    ¬ legal ⟨[[-1, 2], [-1, -1]], 1, [0, 3]⟩ 0 1 ∧ legal ⟨[[-1, 2], [-1, -1]], 1, [0, 3]⟩ 1 0 := by decide
 end Props.C04
 
 namespace Props.C05
@@ -59,6 +74,32 @@ theorem minesweeper_reset_consistent (cfg : Cfg) (s : State) (h : InstanceOK cfg
   Minesweeper.reset_consistent cfg s h
 
 example : Consistent ⟨2, 2, 2, 1, 0, 0⟩ ⟨[[-1, 2], [-1, -1]], 1, [0, 3]⟩ := by decide
+
+/-- (wave 3) ALONG WHOLE EPISODES FROM THE GENERATOR: for every board size, every valid draw of the mine locations and
+every sequence of in-spec actions (legal or not), EVERY state from which the episode continues — the final state of every
+prefix that has not met a LAST step — is `Consistent` (board shape, exactly `num_mines` distinct mines on the board, every
+explored square shows its number of adjacent mines, no explored square is a mine, `step_count` = explored squares = number
+of actions played) -/
+theorem minesweeper_consistent_along (cfg : Cfg) (d : List Nat) (hd : validDraw cfg d) (as : List (Nat × Nat))
+    (hin : ∀ a ∈ as, a.1 < cfg.numRows ∧ a.2 < cfg.numCols) (k : Nat)
+    (hrun : (play cfg (generate cfg d) (as.take k)).ending = .running) :
+    Consistent cfg (play cfg (generate cfg d) (as.take k)).final ∧
+    explored (play cfg (generate cfg d) (as.take k)).final.board = (as.take k).length := by
+  have hcs := Minesweeper.reset_consistent cfg _ (Minesweeper.generate_instanceOK cfg d hd)
+  obtain ⟨h1, h2, _⟩ := Minesweeper.play_running_explored cfg _ hcs (as.take k)
+    (fun a ha => hin a (List.mem_of_mem_take ha)) hrun
+  refine ⟨h2, ?_⟩
+  have h0 : ((explored (generate cfg d).board : Nat) : Int) = 0 := by rw [← hcs.2.2.2.2]; rfl
+  omega
+
+/-- … and the mine table is the generated one in the final state of EVERY play: any state, any actions, any ending (also
+the terminal states, also out-of-range squares) -/
+theorem minesweeper_mines_conserved_along (cfg : Cfg) (s : State) (as : List (Nat × Nat)) :
+    (play cfg s as).final.mines = s.mines := Minesweeper.play_mines cfg s as
+
+example : validDraw ⟨2, 3, 2, 1, 0, 0⟩ [5, 1] ∧
+    (play ⟨2, 3, 2, 1, 0, 0⟩ (generate ⟨2, 3, 2, 1, 0, 0⟩ [5, 1]) ([(0, 0), (1, 0), (0, 1)].take 2)).ending = .running := by
+  decide +kernel
 end Props.C07
 
 namespace Props.C08
@@ -234,6 +275,32 @@ theorem minesweeper_progress (cfg : Cfg) (s : State) (nr nc : Nat) (hs : Grid.sh
     explored (step cfg s r c).1.board = explored s.board + 1 ∧
     ((explored (step cfg s r c).1.board : Nat) : Int) ≠ ((nr * nc : Nat) : Int) - (s.mines.length : Int) :=
   Minesweeper.progress cfg s nr nc hs hms r c hr hc hn
+
+/-- (wave 3) EPISODE level, from the generator (all sizes, all valid mine draws, all in-spec action sequences; `play` = the L1
+`step` iterated until the first LAST): an episode never lasts longer than its structural horizon `cells − mines` — a
+non-empty action list that has not met LAST is strictly shorter than `cells − num_mines` (so LAST comes at step
+`cells − num_mines` at the latest, and at step 1 if `num_mines ≥ cells − 1`) -/
+theorem minesweeper_episode_within_horizon (cfg : Cfg) (d : List Nat) (hd : validDraw cfg d) (as : List (Nat × Nat))
+    (hin : ∀ a ∈ as, a.1 < cfg.numRows ∧ a.2 < cfg.numCols) (hne : as ≠ [])
+    (hrun : (play cfg (generate cfg d) as).ending = .running) :
+    as.length + cfg.numMines < cfg.numRows * cfg.numCols := by
+  have hcs := Minesweeper.reset_consistent cfg _ (Minesweeper.generate_instanceOK cfg d hd)
+  have := Minesweeper.play_running_short cfg _ hcs as hin hrun hne
+  omega
+
+/-- … never earlier: an episode that ends for no other reason (no mine, no invalid move: it ends `.cleared`) ends exactly
+when `step_count = cells − num_mines`, all those squares being explored -/
+theorem minesweeper_cleared_exactly_at_horizon (cfg : Cfg) (d : List Nat) (hd : validDraw cfg d) (as : List (Nat × Nat))
+    (hin : ∀ a ∈ as, a.1 < cfg.numRows ∧ a.2 < cfg.numCols)
+    (hcl : (play cfg (generate cfg d) as).ending = .cleared) :
+    (play cfg (generate cfg d) as).final.stepCount = ((cfg.numRows * cfg.numCols : Nat) : Int) - (cfg.numMines : Int) ∧
+    ((explored (play cfg (generate cfg d) as).final.board : Nat) : Int) = (play cfg (generate cfg d) as).final.stepCount :=
+  Minesweeper.play_cleared_count cfg _ (Minesweeper.reset_consistent cfg _ (Minesweeper.generate_instanceOK cfg d hd)) as hin hcl
+
+-- 2×3 board with mines at 1 and 5: the four safe squares clear the board at step 4 = 6 − 2
+example : (play ⟨2, 3, 2, 1, 0, 0⟩ (generate ⟨2, 3, 2, 1, 0, 0⟩ [5, 1]) [(0, 0), (1, 0), (0, 2), (1, 1)]).ending = .cleared ∧
+    (play ⟨2, 3, 2, 1, 0, 0⟩ (generate ⟨2, 3, 2, 1, 0, 0⟩ [5, 1]) [(0, 0), (1, 0), (0, 2), (1, 1)]).final.stepCount = 4 := by
+  decide +kernel
 end Props.C11
 
 namespace Props.C12
@@ -241,6 +308,17 @@ namespace Props.C12
 true number of mines, the step count) -/
 theorem minesweeper_obs_faithful (cfg : Cfg) (s : State) (r c : Int) (hm : s.mines.length = cfg.numMines) :
     (step cfg s r c).2.obs = observe (step cfg s r c).1 := Minesweeper.obs_faithful cfg s r c hm
+
+/-- (wave 3) the `reset` observation is the same documented function of the generated state, for every valid draw: the
+board (all −1), every square selectable, the number of mines really placed, step count 0 -/
+theorem minesweeper_reset_obs_faithful (cfg : Cfg) (d : List Nat) (hd : validDraw cfg d) :
+    (resetTimeStep cfg (generate cfg d)).obs = observe (generate cfg d) ∧
+    (resetTimeStep cfg (generate cfg d)).stepType = .first ∧
+    (observe (generate cfg d)).numMines = cfg.numMines ∧ (observe (generate cfg d)).stepCount = 0 := by
+  have hm : (generate cfg d).mines.length = cfg.numMines := by simp [generate, hd.1]
+  refine ⟨Minesweeper.reset_obs_faithful cfg _ hm, rfl, ?_, rfl⟩
+  show (((generate cfg d).mines.length : Nat) : Int) = _
+  rw [hm]
 end Props.C12
 
 namespace Props.C01
@@ -270,4 +348,77 @@ theorem minesweeper_explored_add_mines_le (cfg : Cfg) (s : State) (hcs : Consist
 step_count = 2 > 1*2 − 1 (such a step is after LAST in the real environment) -/
 example : Consistent ⟨1, 2, 1, 1, 0, 0⟩ ⟨[[1, -1]], 1, [1]⟩ ∧ isSolved ⟨[[1, -1]], 1, [1]⟩ = true ∧
     (step ⟨1, 2, 1, 1, 0, 0⟩ ⟨[[1, -1]], 1, [1]⟩ 0 1).2.obs.stepCount = 2 := by decide
+
+/-! #### (wave 3) membership in the DECLARED specs: structure, shapes, dtypes and bounds -/
+open Sp PzS PzS3
+
+/-- the model's `obsSpec` / `actionSpec` / reward and discount specs ARE the specs generated from the real spec objects
+(Gen/Specs.lean) for the catalogue configuration of Minesweeper (5 × 6 board, 4 mines) -/
+theorem minesweeper_obsSpec_generated :
+    prefixed "observation_spec." (obsSpec ⟨5, 6, 4, 1, 0, 0⟩) = declared "minesweeper-5x6" "observation_spec." ∧
+    [("action_spec", actionSpec ⟨5, 6, 4, 1, 0, 0⟩)] = declared "minesweeper-5x6" "action_spec" ∧
+    [("reward_spec", PzS.rewardSpec)] = declared "minesweeper-5x6" "reward_spec" ∧
+    [("discount_spec", discountSpec)] = declared "minesweeper-5x6" "discount_spec" := by
+  refine ⟨by decide, by decide, by decide, by decide⟩
+
+/-- the `reset` observation of the TRANSLITERATED generator — all sizes, every valid draw of the mine locations; the
+generator's constructor refuses `num_mines ≥ rows·cols` — is accepted by `observation_spec.validate`: fields `board`,
+`action_mask`, `num_mines`, `step_count`; shapes `(R, C)`, `(R, C)`, `()`, `()`; dtypes int32, bool, int32, int32; bounds
+[−1, 8], [0, 1], [0, R·C − 1], [0, R·C − num_mines] -/
+theorem minesweeper_reset_obs_valid (cfg : Cfg) (d : List Nat) (hd : validDraw cfg d) (hM : cfg.numMines < cells cfg) :
+    (obsSpec cfg).valid (toNValue (resetTimeStep cfg (generate cfg d)).obs) = true :=
+  Minesweeper.generate_obs_valid cfg d hd hM
+
+/-- the same for every `step` observation from a `Consistent`, not yet solved state (both established at reset and preserved
+while the episode runs: `minesweeper_consistent_along`), for every square of the action space — unexplored or explored, mined
+or not — up to and including the terminal step -/
+theorem minesweeper_step_obs_valid (cfg : Cfg) (s : State) (hcs : Consistent cfg s) (r c : Nat)
+    (hr : r < cfg.numRows) (hc : c < cfg.numCols) (hns : isSolved s = false) (hM : cfg.numMines < cells cfg) :
+    (obsSpec cfg).valid (toNValue (step cfg s r c).2.obs) = true :=
+  Minesweeper.step_obs_valid cfg s hcs r c hr hc hns hM
+
+/-- … hence for EVERY observation of EVERY episode from the generator: after any prefix of in-spec actions that has not met
+LAST, whatever square is chosen next (the terminal step included) -/
+theorem minesweeper_episode_obs_valid (cfg : Cfg) (d : List Nat) (hd : validDraw cfg d) (hM : cfg.numMines < cells cfg)
+    (as : List (Nat × Nat)) (hin : ∀ a ∈ as, a.1 < cfg.numRows ∧ a.2 < cfg.numCols)
+    (hrun : (play cfg (generate cfg d) as).ending = .running) (r c : Nat) (hr : r < cfg.numRows) (hc : c < cfg.numCols) :
+    (obsSpec cfg).valid (toNValue (step cfg (play cfg (generate cfg d) as).final r c).2.obs) = true :=
+  Minesweeper.episode_obs_valid cfg d hd hM as hin hrun r c hr hc
+
+/-- what membership means: `validate` accepts ONLY observations of shape `(R, C)` with cells in [−1, 8], `num_mines` in
+[0, R·C − 1] and `step_count` in [0, R·C − num_mines] -/
+theorem minesweeper_obs_valid_only (cfg : Cfg) (o : Obs) (h : (obsSpec cfg).valid (toNValue o) = true) :
+    gridShape o.board = [cfg.numRows, cfg.numCols] ∧ gridShape o.mask = [cfg.numRows, cfg.numCols] ∧
+    (∀ v ∈ List.flatten o.board, -1 ≤ v ∧ v ≤ 8) ∧
+    (0 ≤ o.numMines ∧ o.numMines ≤ ((cells cfg : Nat) : Int) - 1) ∧
+    (0 ≤ o.stepCount ∧ o.stepCount ≤ ((cells cfg : Nat) : Int) - (cfg.numMines : Int)) :=
+  Minesweeper.obs_valid_only cfg o h
+
+/-- the hypothesis `num_mines < rows·cols` is needed: with every square mined the observation's `num_mines` exceeds the
+declared maximum `rows·cols − 1` (the real constructor raises for such a configuration); and the terminal step on the solved
+board of the example above is rejected -/
+example : validDraw ⟨1, 2, 2, 1, 0, 0⟩ [0, 1] ∧
+    (obsSpec ⟨1, 2, 2, 1, 0, 0⟩).valid (toNValue (resetTimeStep ⟨1, 2, 2, 1, 0, 0⟩ (generate ⟨1, 2, 2, 1, 0, 0⟩ [0, 1])).obs) = false ∧
+    (obsSpec ⟨1, 2, 1, 1, 0, 0⟩).valid (toNValue (step ⟨1, 2, 1, 1, 0, 0⟩ ⟨[[1, -1]], 1, [1]⟩ 0 1).2.obs) = false ∧
+    (obsSpec ⟨1, 2, 1, 1, 0, 0⟩).valid (toNValue (step ⟨1, 2, 1, 1, 0, 0⟩ ⟨[[-1, -1]], 0, [1]⟩ 0 0).2.obs) = true := by
+  decide +kernel
+
+/-- reward and discount of every `step` (ALL states, ALL action values) and of `reset` are accepted by `reward_spec`
+(Array((), float)) and `discount_spec` (BoundedArray((), float, 0, 1)) -/
+theorem minesweeper_reward_discount_valid (cfg : Cfg) (s s0 : State) (r c : Int) :
+    PzS.rewardSpec.valid (scalarArr (step cfg s r c).2.reward) = true ∧
+    discountSpec.valid (scalarArr (step cfg s r c).2.discount) = true ∧
+    PzS.rewardSpec.valid (scalarArr (resetTimeStep cfg s0).reward) = true ∧
+    discountSpec.valid (scalarArr (resetTimeStep cfg s0).discount) = true :=
+  ⟨(Minesweeper.step_reward_discount_valid cfg s r c).1, (Minesweeper.step_reward_discount_valid cfg s r c).2,
+   (restart_reward_discount_valid _).1, (restart_reward_discount_valid _).2⟩
+
+/-- `action_spec.generate_value()` = (0, 0): for every constructible board the action spec is well-formed, the generated
+value is a member of it, and `step` answers it in every state with a protocol-conform timestep (its observation is a member
+of `observation_spec` by the theorems above, (0, 0) being a square of the board) -/
+theorem minesweeper_accepts_generate_value (cfg : Cfg) (hR : 0 < cfg.numRows) (hC : 0 < cfg.numCols)
+    (hbig : cfg.numRows ≤ 2147483648 ∧ cfg.numCols ≤ 2147483648) (s : State) :
+    (actionSpec cfg).WF = true ∧ (actionSpec cfg).valid (actionSpec cfg).generate = true ∧
+    (actionSpec cfg).generate = actionArr 0 0 ∧ StepOK none false (step cfg s 0 0).2 = true :=
+  Minesweeper.accepts_generate_value cfg hR hC hbig s
 end Props.C01
